@@ -4,6 +4,7 @@ import (
 	"bytes"
 	"fmt"
 	"sync"
+	"sync/atomic"
 	"testing"
 	"time"
 
@@ -61,15 +62,103 @@ func c01Devs() []c01Dev {
 	return d
 }
 
+// Router-alert dimension. The alert flags of a hop field are not covered by its MAC: anybody can set them on a packet
+// whose hop field fails the MAC or expiry check. v is the validated hop that carries the defect.
+type c01Alert struct {
+	name  string
+	xover bool // only meaningful where two hops are validated
+	apply func(p *rtr.Pkt, c *rtr.Case, v int)
+}
+
+func c01Alerts() []c01Alert {
+	set := func(p *rtr.Pkt, g int, in, eg bool) {
+		h := p.HopRef(g)
+		h.InAlert, h.EgAlert = h.InAlert || in, h.EgAlert || eg
+	}
+	return []c01Alert{
+		{"none", false, func(*rtr.Pkt, *rtr.Case, int) {}},
+		{"I@hop", false, func(p *rtr.Pkt, c *rtr.Case, v int) { set(p, c.V[v].Hop, true, false) }},
+		{"E@hop", false, func(p *rtr.Pkt, c *rtr.Case, v int) { set(p, c.V[v].Hop, false, true) }},
+		{"IE@hop", false, func(p *rtr.Pkt, c *rtr.Case, v int) { set(p, c.V[v].Hop, true, true) }},
+		// both flags on every validated hop, except the flag that addresses the INGRESS router on a hop that precedes the
+		// defective one and is itself valid: that alert is legitimately served before the later hop field is looked at
+		{"IE@all-validated-hops", true, func(p *rtr.Pkt, c *rtr.Case, v int) {
+			for i, vh := range c.V {
+				if i < v {
+					cd := p.Segs[vh.Inf].ConsDir
+					set(p, vh.Hop, !cd, cd) // the egress-direction flag only
+				} else {
+					set(p, vh.Hop, true, true)
+				}
+			}
+		}},
+	}
+}
+
+type c01Pld struct {
+	name string
+	set  func(p *rtr.Pkt)
+}
+
+func c01Plds() []c01Pld {
+	return []c01Pld{
+		{"udp", nil},
+		{"scmp-traceroute-request", func(p *rtr.Pkt) {
+			p.SetSCMP(130, 0, append([]byte{0x12, 0x34, 0x00, 0x07}, make([]byte, 16)...)) // id, sequence, ISD-AS (0), interface (0)
+		}},
+		{"scmp-echo-request", func(p *rtr.Pkt) { p.SetSCMP(128, 0, append([]byte{0x12, 0x34, 0x00, 0x07}, "verif"...)) }},
+		{"scmp-error-dest-unreachable", func(p *rtr.Pkt) { p.SetSCMP(1, 0, append(make([]byte, 4), bytes.Repeat([]byte{0xab}, 32)...)) }},
+	}
+}
+
+// c01Upper finds the upper layer of a serialised SCION packet (scion-header.rst: common header, NextHdr chain over
+// hop-by-hop 200 / end-to-end 201 extension headers) and, for SCMP (202), its type and code.
+func c01Upper(b []byte) (l4, typ, code int, ok bool) {
+	if len(b) < 12 {
+		return
+	}
+	next, o := int(b[4]), int(b[5])*4
+	for next == 200 || next == 201 {
+		if o+2 > len(b) {
+			return
+		}
+		next, o = int(b[o]), o+(int(b[o+1])+1)*4
+	}
+	if next != 202 {
+		return next, 0, 0, true
+	}
+	if o+2 > len(b) {
+		return
+	}
+	return 202, int(b[o]), int(b[o+1]), true
+}
+
+func c01Emitted(b []byte) string {
+	l4, typ, code, ok := c01Upper(b)
+	switch {
+	case !ok:
+		return "undecodable packet"
+	case l4 != 202:
+		return fmt.Sprintf("packet with upper layer %d (the received packet sent back)", l4)
+	case typ == 131:
+		return "SCMP traceroute reply"
+	}
+	return fmt.Sprintf("SCMP type %d code %d", typ, code)
+}
+
 func TestC01(t *testing.T) {
 	r := mc.NewRun(t, "C01", mc.Exploration)
 	r.Rule = "every path shape x position of the AS x interface choice x arrival link kind (rtr.Cases) x {SCION,EPIC} x " +
 		"extension headers x 2 keys x {single,multi BR}; deviations on each hop the router must validate: 12 MAC bit flips, " +
 		"MAC under another key, MAC over a wrong SegID/timestamp/ExpTime/ingress/egress, expiry at -1s/0/+1s for ExpTime 0,63,255; " +
-		"deviation bound 1 (quick) / 2 (thorough). distinct key = case name + variant + deviation; non-trivial = all"
+		"deviation bound 1 (quick) / 2 (thorough); the defective hop (MAC deviations and expiry -1s alike) x router-alert flags {none, I, E, I+E on " +
+		"that hop, I+E on every validated hop} x payload {UDP, SCMP traceroute request, SCMP echo request, SCMP error} (quick: 8 representative " +
+		"MAC deviations, key A, no extension headers; expiry: alert x {UDP, traceroute}); whatever the slow path hands back for transmission is " +
+		"decoded and must be the parameter problem. distinct key = case name + variant + deviation; non-trivial = all"
 	bound := mc.Pick(1, 2)
 	bubble(t, func(t *testing.T) {
 		devs := c01Devs()
+		alerts, plds := c01Alerts(), c01Plds()
 		type job struct {
 			multi bool
 			key   []byte
@@ -105,7 +194,8 @@ func TestC01(t *testing.T) {
 			}
 		}
 		var mu sync.Mutex
-		check := func(rt *rtr.Router, c *rtr.Case, p *rtr.Pkt, variant string, nDev int, devName string, devHop []int, expCode []int, boundary bool) {
+		var alertHonoured [2]atomic.Int64
+		check := func(rt *rtr.Router, c *rtr.Case, p *rtr.Pkt, variant string, nDev int, devName string, devHop []int, expCode []int, boundary bool, soft bool) {
 			raw, lay := p.Serialize()
 			key := c.Name + "|" + variant + "|" + devName
 			// history independence: fresh processors, after a stock packet of another kind, and after the valid twin
@@ -131,6 +221,26 @@ func TestC01(t *testing.T) {
 			if nDev == 0 {
 				if boundary {
 					r.Outcome("boundary-" + dispName(res.Fast.Disp))
+					return
+				}
+				if soft {
+					// valid packet with router-alert flags and / or another payload: C01 demands nothing; recorded (it shows
+					// that the alert flags are the ones this router honours)
+					switch {
+					case res.Fast.Disp == router.VerifSlowPath && res.Fast.SPType == router.VerifSPRouterAlertIngress:
+						alertHonoured[0].Add(1)
+						r.Outcome("valid-with-alert:ingress-alert-honoured")
+					case res.Fast.Disp == router.VerifSlowPath && res.Fast.SPType == router.VerifSPRouterAlertEgress:
+						alertHonoured[1].Add(1)
+						r.Outcome("valid-with-alert:egress-alert-honoured")
+					default:
+						r.Outcome("valid-variant-" + dispName(res.Fast.Disp))
+					}
+					if res.Fast.Disp == router.VerifSlowPath && res.SlowErr == nil && res.Slow != nil {
+						if _, typ, _, ok := c01Upper(res.SlowOut); ok && typ == 131 {
+							r.Outcome("valid-with-alert:traceroute-reply")
+						}
+					}
 					return
 				}
 				if res.Fast.Disp != router.VerifForward {
@@ -159,6 +269,34 @@ func TestC01(t *testing.T) {
 			}
 			if res.Fast.Disp == router.VerifDiscard || res.Fast.Disp == router.VerifDone {
 				r.Outcome("rejected-drop")
+				return
+			}
+			// Whatever the slow path hands back for transmission (on the link the packet came from) must be the SCMP
+			// parameter problem; a traceroute reply or the packet itself is an emission of a packet that failed the check.
+			alertSP := res.Fast.SPType == router.VerifSPRouterAlertIngress || res.Fast.SPType == router.VerifSPRouterAlertEgress
+			emitted := ""
+			if res.Slow != nil && res.SlowErr == nil {
+				l4, typ, code, ok := c01Upper(res.SlowOut)
+				good := ok && l4 == 202 && typ == scmpParamProblem
+				if good && len(expCode) == 1 {
+					good = code == expCode[0]
+				} else if good {
+					good = code == codeInvalidMAC || code == codePathExpired
+				}
+				if !good {
+					emitted = c01Emitted(res.SlowOut)
+				}
+			}
+			if alertSP || emitted != "" {
+				cls := "emitted-despite:"
+				if alertSP {
+					cls = "router-alert-served-despite:"
+				}
+				mu.Lock()
+				r.Violation(cls+devClass(devName), map[string]any{"case": key, "slow_path_request": fmt.Sprintf("type=%d code=%d ptr=%d",
+					res.Fast.SPType, res.Fast.SPCode, res.Fast.SPPointer), "slow_path_error": fmt.Sprint(res.SlowErr), "sent_back": emitted,
+					"packet": fmt.Sprintf("%x", raw), "ingress": fmt.Sprint(c.In)})
+				mu.Unlock()
 				return
 			}
 			r.Outcome("rejected-scmp")
@@ -192,18 +330,37 @@ func TestC01(t *testing.T) {
 						if j.ev >= len(c.V) {
 							continue
 						}
-						p := c.Pkt.Clone()
 						name := fmt.Sprintf("exp%d%+ds@v%d", j.e, j.delta, j.ev)
-						switch {
-						case j.delta > 0:
-							check(rt, c, &p, "scion", 0, name, nil, nil, false)
-						case j.delta == 0:
-							check(rt, c, &p, "scion", 0, name, nil, nil, true)
-						case j.e == 255 && len(c.V) == 2:
-							// both validated hops carry ExpTime 255 and expire together: multi-defect, "not forwarded" only
-							check(rt, c, &p, "scion", 2, name, nil, nil, false)
-						default:
-							check(rt, c, &p, "scion", 1, name, []int{c.V[j.ev].Hop}, []int{codePathExpired}, false)
+						for ai, al := range alerts {
+							for pi, pl := range plds {
+								plain := ai == 0 && pi == 0
+								if !plain && (j.delta >= 0 && pi > 1 || al.xover && len(c.V) < 2) {
+									continue // valid / boundary packets: alert x {udp, traceroute} only (recorded, not judged)
+								}
+								if !plain && !mc.Thorough() && (pi > 1 || !j.multi) {
+									continue // quick: alert x {udp, traceroute}, multi-router configuration
+								}
+								variant := "scion"
+								if !plain {
+									variant = "scion/alert=" + al.name + "/pld=" + pl.name
+								}
+								p := c.Pkt.Clone()
+								if pl.set != nil {
+									pl.set(&p)
+								}
+								al.apply(&p, c, j.ev)
+								switch {
+								case j.delta > 0:
+									check(rt, c, &p, variant, 0, name, nil, nil, false, !plain)
+								case j.delta == 0:
+									check(rt, c, &p, variant, 0, name, nil, nil, true, false)
+								case j.e == 255 && len(c.V) == 2:
+									// both validated hops carry ExpTime 255 and expire together: multi-defect, "not forwarded" only
+									check(rt, c, &p, variant, 2, name, nil, nil, false, false)
+								default:
+									check(rt, c, &p, variant, 1, name, []int{c.V[j.ev].Hop}, []int{codePathExpired}, false, false)
+								}
+							}
 						}
 						continue
 					}
@@ -227,13 +384,44 @@ func TestC01(t *testing.T) {
 								// EPIC: whether the HVF is checked here depends on C13; keep C01 to SCION semantics there
 							}
 							p0 := mkPkt(&base)
-							check(rt, c, &p0, variant, 0, "valid", nil, nil, false)
+							check(rt, c, &p0, variant, 0, "valid", nil, nil, false, false)
 							for v := range c.V {
 								for _, d := range devs {
 									b := base.Clone()
 									d.apply(&b, c, v, j.key)
 									p := mkPkt(&b)
-									check(rt, c, &p, variant, 1, fmt.Sprintf("%s@v%d", d.name, v), []int{c.V[v].Hop}, []int{d.code}, false)
+									check(rt, c, &p, variant, 1, fmt.Sprintf("%s@v%d", d.name, v), []int{c.V[v].Hop}, []int{d.code}, false, false)
+								}
+							}
+							// router-alert flags x payload kind on the defective hop (and on its valid twin)
+							for ai, al := range alerts {
+								for pi, pl := range plds {
+									if ai == 0 && pi == 0 || ext != 0 || (!mc.Thorough() && j.key[0] != rtr.KeyA[0]) {
+										continue
+									}
+									if al.xover && len(c.V) < 2 {
+										continue
+									}
+									variantX := variant + "/alert=" + al.name + "/pld=" + pl.name
+									baseP := base.Clone()
+									if pl.set != nil {
+										pl.set(&baseP)
+									}
+									for v := range c.V {
+										bv := baseP.Clone()
+										al.apply(&bv, c, v)
+										pv := mkPkt(&bv)
+										check(rt, c, &pv, fmt.Sprintf("%s@v%d", variantX, v), 0, "valid", nil, nil, false, true)
+										for _, d := range devs {
+											if !mc.Thorough() && !c01Representative(d.name) {
+												continue
+											}
+											b := bv.Clone()
+											d.apply(&b, c, v, j.key)
+											p := mkPkt(&b)
+											check(rt, c, &p, variantX, 1, fmt.Sprintf("%s@v%d", d.name, v), []int{c.V[v].Hop}, []int{d.code}, false, false)
+										}
+									}
 								}
 							}
 							if bound >= 2 && ext == 0 {
@@ -254,7 +442,7 @@ func TestC01(t *testing.T) {
 													continue // the two deviations cancelled out
 												}
 												p := mkPkt(&b)
-												check(rt, c, &p, variant, 2, fmt.Sprintf("%s@v%d+%s@v%d", d1.name, v1, d2.name, v2), nil, nil, false)
+												check(rt, c, &p, variant, 2, fmt.Sprintf("%s@v%d+%s@v%d", d1.name, v1, d2.name, v2), nil, nil, false, false)
 											}
 										}
 									}
@@ -268,6 +456,11 @@ func TestC01(t *testing.T) {
 		runJobs(jobs)
 		time.Sleep(500 * time.Millisecond) // now = x.5 s: ExpTime 0 (337.5 s) boundaries are exact
 		runJobs(half)
+		if alertHonoured[0].Load() == 0 || alertHonoured[1].Load() == 0 {
+			r.HarnessError("router-alert dimension ineffective: valid packets with alert flags served %d ingress / %d egress alerts",
+				alertHonoured[0].Load(), alertHonoured[1].Load())
+		}
+		r.Extra["valid_packets_whose_alert_was_served"] = map[string]int64{"ingress": alertHonoured[0].Load(), "egress": alertHonoured[1].Load()}
 		// Histories on ONE router instance (per-processor state such as cached clocks or cached MACs must not let an
 		// expired hop through): w valid packets, then the clock passes the expiry of a validated hop, then the same
 		// packet again. All (case, validated hop, warm-up count) combinations.
@@ -330,8 +523,22 @@ func TestC01(t *testing.T) {
 	})
 	r.Assumptions = []string{"verdict at the exact expiry instant (offset 0) is not fixed by the statement: recorded, either accepted",
 		"dropping instead of answering is allowed by the statement; when answered, type/code/pointer are checked",
-		"forwarding keys: 2 concrete 16-byte keys; MACs are concrete AES-CMAC values, not symbolic"}
+		"forwarding keys: 2 concrete 16-byte keys; MACs are concrete AES-CMAC values, not symbolic",
+		"router alert: a packet whose defective hop field carries alert flags must still only be dropped or answered with the parameter problem (a " +
+			"traceroute reply, or the packet handed back for transmission on the ingress link, counts as an emission of the failing packet); the one " +
+			"combination not demanded: an alert addressed to the ingress router on the arrival hop field, which itself passes both checks, may be " +
+			"served before the first hop field of the next segment is looked at",
+		"valid packets with alert flags / non-UDP payloads are recorded only (C01 is an 'only if')"}
 	r.Finish(3)
+}
+
+// c01Representative: the deviations crossed with the alert x payload dimension in the quick tier (one per kind).
+func c01Representative(n string) bool {
+	switch n {
+	case "mac[0]^0x1", "mac[5]^0x80", "mac-other-key", "mac-over-segid^1", "mac-over-ingress^1", "mac-over-exp+1", "pkt-info-ts+1", "pkt-hop-exp+1":
+		return true
+	}
+	return false
 }
 
 func devClass(n string) string {
